@@ -101,8 +101,11 @@ func NewReverseSuffixSearcher(
 	}
 	suffixLen := len(suffixBytes)
 
-	// Build prefilter from suffix literals
-	builder := prefilter.NewBuilder(nil, suffixLiterals)
+	// Build the prefilter from the common suffix itself: candidate positions are
+	// turned into reverse-scan ends by adding suffixLen, which is only right when
+	// the prefilter finds that very literal (with several suffix literals, e.g.
+	// the case variants of (?i)\.txt, their occurrences start elsewhere).
+	builder := prefilter.NewBuilder(nil, literal.NewSeq(literal.NewLiteral(suffixBytes, false)))
 	pre := builder.Build()
 	if pre == nil {
 		// No prefilter available - cannot use this optimization
